@@ -7,3 +7,8 @@ import DateutilVerif.Properties.C09
 #print axioms C09.diff_self_empty
 #print axioms C09.diff_inverse_distinct_objects_partial
 #print axioms C09.diff_inverse_distinct_objects_counterexample
+#print axioms C09.gen_initDiff_eq_model
+#print axioms C09.diff_loop_terminates_gen
+#print axioms C09.diff_inverse_gen
+#print axioms C09.diff_normalised_gen
+#print axioms C09.diff_largest_shift_gen
